@@ -17,7 +17,7 @@ DTYPES = ["int8", "int16", "int32", "int64", "uint8", "uint16", "uint32", "uint6
 ESZ = {"int8": 1, "int16": 2, "int32": 4, "int64": 8, "uint8": 1, "uint16": 2, "uint32": 4, "uint64": 8, "float32": 4, "float64": 8}
 CORR = ("Model.FileImage.image_v2 (superblock, local heap, symbol table node, group B-tree node, root object header, data, dataset "
         "object header in its reserved block) vs the whole file written by CreateForWrite/CreateDataset/Write/Close")
-HEADER = "From HV Require Import Base.Prelude Model.FileImage.\n"
+HEADER = "From HV Require Import Base.Prelude Model.FileImage Model.FileImageChunked.\n"
 DATA_ADDR = 2195
 
 
@@ -91,6 +91,138 @@ def py_spec(c, f):
     return probs
 
 
+# ----------------------------------------------------------------------------- chunked datasets (Model/FileImageChunked.v)
+CORR_CHUNKED = ("Model.FileImageChunked.image_v2_chunked (the five root blocks, the dataset header with the chunked layout message "
+                "and the patched B-tree address, the padded chunks in linear order, the version 1 B-tree leaf) vs the whole file "
+                "written by CreateForWrite/CreateDataset(WithChunkDims)/Write/Close")
+CHDR_ADDR, CHUNKS_ADDR = 2195, 2457
+
+
+def gen_chunked(rng, n):
+    cases = [dict(name=b"d", dtype="uint8", dims=[3], cdims=[2], data=bytes([1, 2, 3])),
+             dict(name=b"c", dtype="int32", dims=[4, 6], cdims=[2, 3], data=bytes(range(96))),
+             dict(name=b"edge", dtype="uint16", dims=[5, 7], cdims=[2, 3], data=bytes(i % 251 for i in range(70))),
+             dict(name=b"one", dtype="float64", dims=[2, 2], cdims=[2, 2], data=bytes(range(32))),
+             dict(name=b"r3", dtype="int8", dims=[3, 2, 3], cdims=[2, 1, 2], data=bytes(range(18))),
+             dict(name=b"r17", dtype="float64", dims=[1] * 16 + [3], cdims=[1] * 16 + [2], data=bytes(range(24)))]
+    while len(cases) < n:
+        dt = rng.choice(DTYPES)
+        if rng.random() < 0.06:
+            rank = rng.choice([4, 6, 15])
+            dims = [rng.choice([1, 1, 2]) for _ in range(rank)]
+        else:
+            rank = rng.choice([1, 1, 2, 2, 3])
+            dims = [rng.choice([1, 2, 3, 4, 5, 7, 8, 9]) for _ in range(rank)] if rank < 3 else [rng.choice([1, 2, 3, 4]) for _ in range(3)]
+        cdims = [rng.randint(1, d) for d in dims]
+        tot = 1
+        for d in dims:
+            tot *= d
+        cases.append(dict(name=rand_name(rng), dtype=dt, dims=dims, cdims=cdims, data=bytes(rng.getrandbits(8) for _ in range(tot * ESZ[dt]))))
+    return cases
+
+
+def _eval_chunked(args):
+    k, cases, files = args
+    terms = []
+    for c, f in zip(cases, files):
+        terms.append("(%s, %d, %s, %s, %s, %s)" % (lit(c["name"]), DTYPES.index(c["dtype"]), vlib.cNlist(c["dims"]), vlib.cNlist(c["cdims"]),
+                                                   lit(c["data"]), lit(f)))
+    v = [HEADER, "Definition cs : list (list string * N * list N * list N * list string * list string) := [\n%s].\n" % ";\n".join(terms),
+         "Definition bad := Eval vm_compute in mismatches image_chunked_case_ok cs.\nPrint bad.\n"]
+    out = vlib.coq_eval("".join(v), "c01filec_%d" % k)
+    return [k + i for i in vlib.parse_nlist(out, "bad")]
+
+
+def py_chunked_oracle(c, f):
+    """independent of the model: read the library's file back with a few lines of Python (header at 2195, layout message ->
+    B-tree leaf -> chunks) and scatter the chunks; must give the written data"""
+    probs = []
+    esz, dims, cd = ESZ[c["dtype"]], c["dims"], c["cdims"]
+    if f[CHDR_ADDR:CHDR_ADDR + 4] != b"OHDR":
+        return ["no object header at %d" % CHDR_ADDR]
+    eof = struct.unpack_from("<Q", f, 28)[0]
+    if eof != len(f):
+        probs.append("superblock end-of-file address %d, file length %d" % (eof, len(f)))
+    # messages of the v2 header: type(1) size(2) flags(1) data
+    pos, end, bt, lcd = CHDR_ADDR + 7, CHDR_ADDR + 7 + f[CHDR_ADDR + 6], None, None
+    while pos + 4 <= end:
+        ty, sz = f[pos], struct.unpack_from("<H", f, pos + 1)[0]
+        body = f[pos + 4:pos + 4 + sz]
+        if ty == 8 and body[:2] == bytes([3, 2]):
+            r = body[2]
+            bt = struct.unpack_from("<Q", body, 3)[0]
+            lcd = list(struct.unpack_from("<%dI" % r, body, 11))
+        pos += 4 + sz
+    if bt is None:
+        return probs + ["no chunked layout message in the dataset header"]
+    if lcd != cd:
+        probs.append("layout message chunk extents %s, given %s" % (lcd, cd))
+    if f[bt:bt + 4] != b"TREE" or f[bt + 4] != 1 or f[bt + 5] != 0:
+        return probs + ["no chunk B-tree leaf at the layout message's address %d" % bt]
+    n = struct.unpack_from("<H", f, bt + 6)[0]
+    rank = len(dims)
+    ks = 8 + 8 * rank
+    out = bytearray(len(c["data"]))
+    csz = esz
+    for x in cd:
+        csz *= x
+    p = bt + 24
+    for _ in range(n):
+        nb = struct.unpack_from("<I", f, p)[0]
+        off = struct.unpack_from("<%dQ" % rank, f, p + 8)
+        addr = struct.unpack_from("<Q", f, p + ks)[0]
+        p += ks + 8
+        if nb != csz:
+            probs.append("chunk of %d bytes, expected the full chunk size %d" % (nb, csz))
+            break
+        chunk = f[addr:addr + nb]
+        # scatter
+        def rec(dim, coff, doff):
+            if dim == rank:
+                out[doff * esz:(doff + 1) * esz] = chunk[coff * esz:(coff + 1) * esz]
+                return
+            for i in range(cd[dim]):
+                if off[dim] + i < dims[dim]:
+                    rec(dim + 1, coff * cd[dim] + i, doff * dims[dim] + off[dim] + i)
+        rec(0, 0, 0)
+    if not probs and bytes(out) != c["data"]:
+        probs.append("the chunks found through the dataset header's B-tree do not assemble to the written data")
+    return probs
+
+
+def run_chunked(ctx, n, builddir):
+    H, rng = ctx.harness, ctx.rng
+    cases = gen_chunked(rng, n)
+    wire = [dict(sb=2, name=c["name"].hex(), dtype=c["dtype"], dims=c["dims"], chunk=c["cdims"], data=c["data"].hex(), dir=builddir) for c in cases]
+    res = vlib.run_harness(H, "c01file", wire)
+    viol, kept, files = [], [], []
+    for c, w, r in zip(cases, wire, res):
+        w = {k: v for k, v in w.items() if k != "dir"}
+        if not r.get("ok"):
+            viol.append(dict(what="c01file(chunked): the library refused or failed an admissible create/write/close: %s" % str(r)[:300], failing_input=w, impl=r))
+            continue
+        f = bytes.fromhex(r["file"])
+        probs = py_chunked_oracle(c, f)
+        if probs:
+            viol.append(dict(what="c01file(chunked): " + probs[0], failing_input=w, impl=dict(file=r["file"][:6000]), problems=probs))
+            continue
+        kept.append((c, w))
+        files.append(f)
+    ck = [c for c, _ in kept]
+    parts = [(k, ck[k:k + 12], files[k:k + 12]) for k in range(0, len(ck), 12)]
+    with cf.ThreadPoolExecutor(max_workers=10) as ex:
+        bad = sorted(i for r in ex.map(_eval_chunked, parts) for i in r)
+    for i in bad:
+        c, w = kept[i]
+        viol.append(dict(what="c01file(chunked): the file written by the library differs from Model.FileImageChunked.image_v2_chunked", case=w,
+                         impl=dict(file=files[i].hex()), nofail=True, correspondence=CORR_CHUNKED))
+    distinct = {(c["name"], c["dtype"], tuple(c["dims"]), tuple(c["cdims"]), c["data"]) for c, _ in kept}
+    partial = sum(1 for c, _ in kept if any(d % x for d, x in zip(c["dims"], c["cdims"])))
+    samples = [dict(case=dict(w, data=w["data"][:64]), file_len=len(f)) for (c, w), f in list(zip(kept, files))[:2]]
+    return dict(violations=viol, evaluations=len(cases), distinct=len(distinct), samples=samples, partial_edge=partial,
+                ranks=sorted({len(c["dims"]) for c in cases}))
+
+
 def run_unit(ctx, n=None):
     H, rng = ctx.harness, ctx.rng
     n = n or (400 if ctx.tier == "thorough" else 120)
@@ -121,7 +253,10 @@ def run_unit(ctx, n=None):
     for (c, w), f in list(zip(kept, files))[:2]:
         samples.append(dict(case=dict(w, data=w["data"][:64]), file_len=len(f)))
     distinct = {(c["name"], c["dtype"], tuple(c["dims"]), c["data"]) for c, _ in kept}
-    return dict(violations=viol, known=[], evaluations=len(cases), distinct=len(distinct), samples=samples,
-                rule="whole file compared byte for byte with image_v2; distinct = distinct (name, dtype, dims, data)",
+    ch = run_chunked(ctx, 150 if ctx.tier == "thorough" else 48, builddir)
+    viol += ch.pop("violations")
+    return dict(violations=viol, known=[], evaluations=len(cases) + ch["evaluations"], distinct=len(distinct) + ch["distinct"], samples=samples + ch["samples"],
+                chunked=dict(evaluations=ch["evaluations"], distinct=ch["distinct"], with_partial_edge_chunks=ch["partial_edge"], ranks=ch["ranks"]),
+                rule="whole file compared byte for byte with image_v2 / image_v2_chunked; distinct = distinct (name, dtype, dims[, chunk dims], data)",
                 dtypes=sorted({c["dtype"] for c in cases}), ranks=sorted({len(c["dims"]) for c in cases}),
                 name_lengths=sorted({len(c["name"]) for c in cases})[:40], wall=round(time.time() - t0, 1))
